@@ -200,7 +200,7 @@ DStmt(t, i) ==
        ELSE IF DOp(t[loc[3]], ",") THEN
             LET p == DPrintItems(t, loc[3] + 1, <<>>) IN
             IF p[1] THEN <<TRUE, << [I0 EXCEPT !.op = "DEV", !.x = "PRINT@", !.a = << loc[2] >>, !.sk = "PRINT@"],
-                                    [I0 EXCEPT !.op = "PRINT", !.a = p[2], !.sk = "PRINT@"] >>, p[3]>> ELSE SFail
+                                    [I0 EXCEPT !.op = "PRINT", !.a = p[2], !.sk = "PRINT"] >>, p[3]>> ELSE SFail
        ELSE SFail
     ELSE LET p == DPrintItems(t, i + 1, <<>>) IN
          IF p[1] THEN One([I0 EXCEPT !.op = "PRINT", !.a = p[2], !.sk = "PRINT"], p[3]) ELSE SFail
